@@ -545,30 +545,66 @@ theorem optBytes_eq : ∀ (os : List V) (ob : Bytes), PDHCP.optBytes os = .ok ob
     obtain ⟨obs, he, rfl⟩ := ih r hr
     exact ⟨b :: obs, by simp only [mapR, hb, Res.bind_ok, he, Res.pure_eq], by simp⟩
 
-/-- the fixed 240 bytes of a DHCP message as Read assembles them -/
+/-- the fixed 240 bytes of a DHCP message as Read assembles them (each address in its 4-byte wire form `PDHCP.ip4`) -/
 def dhcpHeader (op ht hl ho xid secs fl : Nat) (cip yip sip gip hw sname file : Bytes) : Bytes :=
   [n8 op, n8 ht, n8 hl, n8 ho] ++ be32 (n32 xid) ++ be16 (n16 secs) ++ be16 (n16 fl)
-    ++ cip ++ yip ++ sip ++ gip ++ copyInto (zeros 16) hw ++ pFitTo 64 sname ++ pFitTo 128 file ++ be32 PDHCP.magic
+    ++ PDHCP.ip4 cip ++ PDHCP.ip4 yip ++ PDHCP.ip4 sip ++ PDHCP.ip4 gip ++ copyInto (zeros 16) hw ++ pFitTo 64 sname
+    ++ pFitTo 128 file ++ be32 PDHCP.magic
+
+theorem ip4_length (ip : Bytes) : (PDHCP.ip4 ip).length = 4 := by
+  simp [PDHCP.ip4, copyInto_length]
+
+/-- a 4-byte address is written as it is -/
+theorem ip4_of_len4 (ip : Bytes) (h : ip.length = 4) : PDHCP.ip4 ip = ip := by
+  have hz : List.drop 4 (zeros 4) = [] := rfl
+  simp only [PDHCP.ip4, pIpTo4_of_len4 ip h, copyInto, h, zeros_length, hz, List.append_nil]
+  exact List.take_of_length_le (by omega)
 
 theorem dhcpHeader_length (op ht hl ho xid secs fl : Nat) (cip yip sip gip hw sname file : Bytes) :
-    (dhcpHeader op ht hl ho xid secs fl cip yip sip gip hw sname file).length
-      = 224 + cip.length + yip.length + sip.length + gip.length := by
-  simp [dhcpHeader, pFitTo_length, copyInto_length]; omega
+    (dhcpHeader op ht hl ho xid secs fl cip yip sip gip hw sname file).length = 240 := by
+  simp [dhcpHeader, pFitTo_length, copyInto_length, ip4_length]
 
-/-- "neither PAD nor END" -/
-def PlainOpts (os : List V) : Prop := ∀ o ∈ os, ∀ t, PDhcpOpt.tag o = .ok t → PDhcpOpt.isPadOrEnd t = false
+/-- one DHCP option: when Len() and the encoder both succeed the encoding has Len() bytes (a pad / end option is its
+    lone tag byte; any other option only encodes with at most 253 data bytes, so `uint16(len + 2)` is exact) -/
+theorem dhcp_opt_size (o : V) (l : UInt16) (b : Bytes) (hl : PDhcpOpt.len o = .ok l)
+    (hb : PDhcpOpt.marshalOption o = .ok b) : b.length = l.toNat := by
+  simp only [PDhcpOpt.marshalOption] at hb
+  obtain ⟨t, ht, hb⟩ := bind_ok_inv _ _ _ hb
+  simp only [PDhcpOpt.len, ht, Res.bind_ok] at hl
+  obtain ⟨d, hd, hl⟩ := bind_ok_inv _ _ _ hl
+  cases hpe : PDhcpOpt.isPadOrEnd t with
+  | true =>
+    rw [hpe] at hb hl
+    simp only [if_true] at hb hl
+    cases hb; cases hl; rfl
+  | false =>
+    rw [hpe] at hb hl
+    simp only [Bool.false_eq_true, if_false] at hb hl
+    rw [hd] at hb
+    simp only [Res.bind_ok] at hb
+    split at hb
+    · exact absurd hb (by simp)
+    · rename_i hd253
+      cases hb; cases hl
+      have : (n16 (d.length + 2)).toNat = d.length + 2 := by
+        simp only [n16, UInt16.toNat_ofNat']
+        omega
+      rw [this]
+      simp only [List.length_append, List.length_cons, List.length_nil]
+      omega
 
-theorem dhcp_opts_size : ∀ (os : List V) (ls : List UInt16) (obs : List Bytes), PlainOpts os →
+/-- EVERY option list: the options' encodings are, one by one and in total, as long as the options' Len() says -/
+theorem dhcp_opts_size : ∀ (os : List V) (ls : List UInt16) (obs : List Bytes),
     PDHCP.optLens os = .ok ls → mapR PDhcpOpt.marshalOption os = .ok obs →
-    PDHCP.hasEnd os = .ok false ∧ obs.flatten.length = (ls.map UInt16.toNat).sum := by
+    obs.map List.length = ls.map UInt16.toNat ∧ obs.flatten.length = (ls.map UInt16.toNat).sum := by
   intro os
   induction os with
   | nil =>
-    intro ls obs _ h1 h2
+    intro ls obs h1 h2
     simp only [PDHCP.optLens] at h1; simp only [mapR] at h2
     cases h1; cases h2; exact ⟨rfl, rfl⟩
   | cons o os ih =>
-    intro ls obs hp h1 h2
+    intro ls obs h1 h2
     simp only [PDHCP.optLens] at h1
     simp only [mapR] at h2
     obtain ⟨l, hl, h1⟩ := bind_ok_inv _ _ _ h1
@@ -577,31 +613,11 @@ theorem dhcp_opts_size : ∀ (os : List V) (ls : List UInt16) (obs : List Bytes)
     obtain ⟨b, hb, h2⟩ := bind_ok_inv _ _ _ h2
     obtain ⟨obs', hobs', h2⟩ := bind_ok_inv _ _ _ h2
     cases h2
-    obtain ⟨he, hsum⟩ := ih ls' obs' (fun o' ho' => hp o' (by simp [ho'])) hls' hobs'
-    simp only [PDhcpOpt.marshalOption] at hb
-    obtain ⟨t, ht, hb⟩ := bind_ok_inv _ _ _ hb
-    have hpe := hp o (by simp) t ht
-    rw [hpe] at hb
-    simp only [Bool.false_eq_true, if_false] at hb
-    obtain ⟨d, hd, hb⟩ := bind_ok_inv _ _ _ hb
-    split at hb
-    · exact absurd hb (by simp)
-    · rename_i hd253
-      cases hb
-      simp only [PDhcpOpt.len, hd, Res.bind_ok] at hl
-      cases hl
-      constructor
-      · simp only [PDHCP.hasEnd, ht, Res.bind_ok, he, Res.pure_eq]
-        have : (t.toNat == Gen.protocol.DHCP_OPT_END) = false := by
-          simp only [PDhcpOpt.isPadOrEnd, Bool.or_eq_false_iff] at hpe
-          exact hpe.2
-        rw [this]; rfl
-      · simp only [List.flatten_cons, List.length_append, List.length_cons, List.length_nil, List.map_cons, List.sum_cons,
-          hsum]
-        have : (n16 (d.length + 2)).toNat = d.length + 2 := by
-          simp only [n16, UInt16.toNat_ofNat']
-          omega
-        rw [this]; omega
+    obtain ⟨hmap, hsum⟩ := ih ls' obs' hls' hobs'
+    have hbl := dhcp_opt_size o l b hl hb
+    constructor
+    · simp [hmap, hbl]
+    · simp [hsum, hbl]
 
 theorem tlv_readBuf_length (kind : String) (v : V) (b : Bytes) (h : PTLV.readBuf kind v = .ok b) : 3 ≤ b.length := by
   unfold PTLV.readBuf at h
@@ -616,6 +632,79 @@ theorem copyInto_take (dst src : Bytes) (h : src.length ≤ dst.length) : (copyI
   rw [List.take_of_length_le h]
   simp
 
+theorem copyInto_fits (dst src : Bytes) (h : src.length ≤ dst.length) : copyInto dst src = src ++ dst.drop src.length := by
+  unfold copyInto
+  rw [List.take_of_length_le h]
+
+theorem take_app2 (a b t : Bytes) : (a ++ (b ++ t)).take (a.length + b.length) = a ++ b := by
+  rw [← List.append_assoc]
+  have : (a ++ b).length = a.length + b.length := by simp
+  rw [← this, List.take_left]
+
+theorem drop_app2 (a b t : Bytes) : (a ++ (b ++ t)).drop (a.length + b.length) = t := by
+  rw [← List.append_assoc]
+  have : (a ++ b).length = a.length + b.length := by simp
+  rw [← this, List.drop_left]
+
+theorem tlv_readBuf_shape (kind : String) (v : V) (b : Bytes) (h : PTLV.readBuf kind v = .ok b) :
+    ∃ ty ln st d, v = .obj kind [.num ty, .num ln, .num st, .bytes d] ∧
+      b = be16 (PTLV.packTypeLen (n8 ty) (n16 ln)) ++ [n8 st] ++ d ∧ b.length = 3 + d.length := by
+  unfold PTLV.readBuf at h
+  split at h
+  · split at h
+    · rename_i hk
+      cases h; subst hk
+      exact ⟨_, _, _, _, rfl, rfl, by simp; omega⟩
+    · exact absurd h (by simp)
+  · exact absurd h (by simp)
+
+theorem ttl_readBuf_shape (v : V) (b : Bytes) (h : PTLV.ttlReadBuf v = .ok b) :
+    ∃ ty ln secs, v = .obj "p.TTLTLV" [.num ty, .num ln, .num secs] ∧
+      b = be16 (PTLV.packTypeLen (n8 ty) (n16 ln)) ++ be16 (n16 secs) ∧ b.length = 4 := by
+  unfold PTLV.ttlReadBuf at h
+  split at h
+  · cases h; exact ⟨_, _, _, rfl, rfl, rfl⟩
+  · exact absurd h (by simp)
+
+/-- LLDP.Read into a buffer that can hold the three TLVs: they are written one behind the other, nothing else of the
+    buffer changes, and the count is the sum of the three sizes -/
+theorem lldp_read_eq (ch pt ttl : V) (cb pb tb b : Bytes)
+    (hcb : PTLV.readBuf "p.ChassisTLV" ch = .ok cb) (hpb : PTLV.readBuf "p.PortTLV" pt = .ok pb)
+    (htb : PTLV.ttlReadBuf ttl = .ok tb) (hfit : cb.length + pb.length + tb.length ≤ b.length) :
+    PLLDP.read (.obj "p.LLDP" [ch, pt, ttl]) b
+      = .ok (cb ++ pb ++ tb ++ b.drop (cb.length + pb.length + tb.length), cb.length + pb.length + tb.length) := by
+  have c3 := tlv_readBuf_length _ _ _ hcb
+  have p3 := tlv_readBuf_length _ _ _ hpb
+  simp only [PLLDP.read, hcb, hpb, htb, Res.bind_ok]
+  have hm : min b.length cb.length = cb.length := Nat.min_eq_right (by omega)
+  have ho : min (b.length - cb.length) pb.length = pb.length := Nat.min_eq_right (by omega)
+  have hp : min (b.length - (cb.length + pb.length)) tb.length = tb.length := Nat.min_eq_right (by omega)
+  rw [hm, ho, hp, if_neg (by omega), if_neg (by omega)]
+  rw [copyInto_fits b cb (by omega)]
+  have e1 : (cb ++ b.drop cb.length).take cb.length = cb := by simp
+  have e2 : (cb ++ b.drop cb.length).drop cb.length = b.drop cb.length := by simp
+  rw [e1, e2, copyInto_fits _ pb (by simp; omega)]
+  rw [take_app2, drop_app2, copyInto_fits _ tb (by simp; omega), List.drop_drop, List.drop_drop]
+  simp [List.append_assoc, Nat.add_assoc]
+
+/-- LLDP.Len(): the sum of the three TLV sizes, in uint16; the receiver is unchanged -/
+theorem lldp_len_mod (ch pt ttl : V) (l : UInt16) (v1 : V) (cb pb tb : Bytes)
+    (h1 : PLLDP.lenM (.obj "p.LLDP" [ch, pt, ttl]) = .ok (l, v1))
+    (hcb : PTLV.readBuf "p.ChassisTLV" ch = .ok cb) (hpb : PTLV.readBuf "p.PortTLV" pt = .ok pb)
+    (htb : PTLV.ttlReadBuf ttl = .ok tb) :
+    v1 = .obj "p.LLDP" [ch, pt, ttl] ∧ l.toNat = (cb.length + pb.length + tb.length) % 65536 := by
+  obtain ⟨cty, cln, cst, cd, ec, _, lc⟩ := tlv_readBuf_shape _ _ _ hcb
+  obtain ⟨pty, pln, pst, pd, ep, _, lp⟩ := tlv_readBuf_shape _ _ _ hpb
+  obtain ⟨_, _, _, _, _, lt⟩ := ttl_readBuf_shape _ _ htb
+  subst ec; subst ep
+  simp only [PLLDP.lenM] at h1
+  obtain ⟨e1, e2⟩ := same_ok _ _ _ _ h1
+  subst e1; subst e2
+  refine ⟨rfl, ?_⟩
+  rw [lc, lp, lt, UInt16.toNat_add, UInt16.toNat_add]
+  simp only [n16, UInt16.toNat_ofNat']
+  show (((3 + cd.length) % 2 ^ 16 + (3 + pd.length) % 2 ^ 16) % 2 ^ 16 + 4) % 2 ^ 16 = _
+  omega
 
 /-- Len() of every element of a list, in order -/
 def lenAll (L : V → R (UInt16 × V)) : List V → R (List UInt16)
